@@ -25,6 +25,7 @@ import (
 	"github.com/blevesearch/bleve/v2"
 	"github.com/blevesearch/bleve/v2/index/scorch"
 	"github.com/blevesearch/bleve/v2/index/upsidedown"
+	"github.com/blevesearch/bleve/v2/index/upsidedown/store/boltdb"
 )
 
 // Scenario describes one run. Everything that influences the run is here
@@ -538,6 +539,9 @@ func openIndex(sc Scenario) (bleve.Index, error) {
 		return bleve.NewUsing("", m, scorch.Name, scorch.Name, map[string]interface{}{"asyncErrorCallbackName": asyncCbName})
 	case "ud":
 		return bleve.NewUsing("", m, upsidedown.Name, "gtreap", nil)
+	case "udbolt":
+		// upsidedown over a KV store whose readers are transactions of a file
+		return bleve.NewUsing(filepath.Join(sc.Dir, "idx"), m, upsidedown.Name, boltdb.Name, nil)
 	}
 	return nil, fmt.Errorf("unknown engine %q", sc.Engine)
 }
